@@ -52,6 +52,20 @@ def confirm_parse_bad(rep, r, b):
             rep.violation('%s::from_bytes:panic' % what, '%s::<%d>::from_bytes panics on a %d-byte input: %s [%s]' % (what, N, len(b['input']), out, prof),
                           {'replay_request': req, 'dev': dev, 'release': rel})
             return True
+        if out.startswith('Ok ') and 'reserved' in b.get('kind', '') and what == 'SecretKey':
+            # the oracle of the specification on the concrete input: which field holds 1 0...0 ?
+            inb = b['input']; w_ = 6 if N == 512 else 5
+            bits = ''.join(format(x, '08b') for x in inb[1:])
+            hit = None; pos = 0
+            for sec, wd in (('f', w_), ('g', w_), ('F', 8)):
+                for k_ in range(N):
+                    if bits[pos:pos + wd] == '1' + '0' * (wd - 1) and hit is None:
+                        hit = (sec, k_)
+                    pos += wd
+            if hit:
+                rep.violation('SecretKey::from_bytes:reserved-value-accepted', 'SecretKey::<%d>::from_bytes accepts a string whose field %s[%d] holds the reserved minimum value (1 followed by zeros) [%s]'
+                              % (N, hit[0], hit[1], prof), {'replay_request': req, 'dev': dev[:80], 'release': rel[:80], 'field': list(hit)})
+                return True
         if out.startswith('Ok '):
             re_enc = out[3:]
             if re_enc != hexs(b['input']):
